@@ -89,15 +89,35 @@ def check_constants(run, tree):
     defs = {}
     extra = {}
     order = []
-    for n in walk_no_nested(fi.node):
-        if isinstance(n, ast.Call) and isinstance(n.func, ast.Attribute) and n.func.attr == "define" and is_name(
-                n.func.value, pn[0]) and n.args and isinstance(const_value(n.args[0]), str):
-            text = const_value(n.args[0])
-            parts = [p.strip() for p in text.split("=")]
-            if len(parts) < 2:
-                run.unresolved(CONST + "::" + text[:30], fi.where(n), "definition string not understood")
-                continue
-            order.append((parts[0], parts[1], parts[2:], n))
+    # the definitions are collected by interpreting configure_constants on a recording registry (literal calls, tables + loops,
+    # helper functions are all the same to the fold)
+    from ..models import ModelEval, Raised
+    from ..peval import Model
+
+    class Registry(Model):
+        def __init__(self):
+            self.defined = []
+
+        def define(self, text, *a, **k):
+            self.defined.append(text)
+    reg = Registry()
+    try:
+        ModelEval(tree, fi, {}, {}).invoke(fi, [reg], {}, None)
+    except Raised as e:
+        run.violated(CONST, fi.where(), "configure_constants raises %s" % e, "import osyris")
+        return
+    except Unsupported as e:
+        run.unresolved(CONST, fi.where(), "cannot fold configure_constants: %s" % e)
+        return
+    for text in reg.defined:
+        if not isinstance(text, str):
+            run.unresolved(CONST + "::definition", fi.where(), "definition is not a string: %r" % (text,))
+            continue
+        parts = [p.strip() for p in text.split("=")]
+        if len(parts) < 2:
+            run.unresolved(CONST + "::" + text[:30], fi.where(), "definition string not understood")
+            continue
+        order.append((parts[0], parts[1], parts[2:], None))
     for name, expr, aliases, node in order:
         try:
             q = parse_unit(expr, extra)
